@@ -43,3 +43,60 @@ Lemma ex_mutations_report :
 Proof.
   repeat split; (eexists; split; [vm_compute; reflexivity | vm_compute; tauto]).
 Qed.
+
+(* ---- full conformity (no equal siblings, well-shaped temporal groups) of two real annotations *)
+From HV Require Import Proofs.ValidateDups Proofs.ValidateTemporal.
+From Coq Require Import Lia.
+
+Ltac nodup_lits :=
+  repeat (constructor; [simpl; intuition discriminate|]); try constructor.
+
+Ltac conf_base :=
+  constructor;
+  [ apply forest_wfb_sound; vm_compute; reflexivity
+  | vm_compute; repeat constructor
+  | vm_compute; repeat constructor
+  | vm_compute; repeat constructor
+  | vm_compute; repeat constructor
+  | vm_compute; repeat constructor ].
+
+Ltac dur_ok :=
+  first [ left; vm_compute; reflexivity
+        | right; left; vm_compute; reflexivity
+        | right; right; split; vm_compute; reflexivity ].
+
+Lemma ex_valid_conforming_full :
+  ConformingFull cfg830 ex_valid /\ validate_forest cfg830 ex_valid = Ok [iss K_TAG_EXTENDED].
+Proof.
+  split; [|vm_compute; reflexivity]. constructor.
+  - conf_base.
+  - unfold nodup_groups. vm_compute. repeat (constructor; [nodup_lits|]). constructor.
+  - cbn [ex_valid groups_of flat_map app]. repeat (constructor; [dur_ok|]). constructor.
+  - cbn [ex_valid groups_of flat_map app]. repeat (constructor; [vm_compute; exact I|]). constructor.
+Qed.
+
+Lemma ex_temporal_conforming_full :
+  ConformingFull cfg830 ex_temporal /\ validate_forest cfg830 ex_temporal = Ok [].
+Proof.
+  split; [|vm_compute; reflexivity]. constructor.
+  - conf_base.
+  - unfold nodup_groups. vm_compute. repeat (constructor; [nodup_lits|]). constructor.
+  - cbn [ex_temporal groups_of flat_map app]. repeat (constructor; [dur_ok|]). constructor.
+  - cbn [ex_temporal groups_of flat_map app].
+    repeat (constructor;
+      [ unfold onset_group_ok;
+        match goal with |- match ?x with _ => _ end =>
+          let v := eval vm_compute in x in change x with v end;
+        cbv beta iota;
+        first [ exact I
+              | eexists; eexists; split; [vm_compute; reflexivity|];
+                split; [vm_compute; lia|];
+                split; [intros u rest H; vm_compute in H; discriminate|];
+                split; vm_compute; reflexivity ] |]).
+    constructor.
+Qed.
+
+Lemma ex_temporal_mutations :
+  reports cfg830 (fprint ex_onset_bad) ex_onset_bad (kind_code K_ONSET_NO_DEF_TAG_FOUND)
+  /\ reports cfg830 (fprint ex_duration_bad) ex_duration_bad (kind_code K_DURATION_WRONG_NUMBER_GROUPS).
+Proof. split; (eexists; split; [vm_compute; reflexivity | vm_compute; tauto]). Qed.
